@@ -268,7 +268,8 @@ def rule_inert_without_scope(ctx, facts, rule):
         via_closure = [(c, hb) for c, hb in some_guarded_closures(facts, fn, prov, r"Option<&mut fastrace::local::local_span_line::SpanLine>")
                        if c.calls(lambda t: t["callee"].startswith(LINE))]
         inside = {c.path for c, _ in via_closure}
-        stray = [c.path for c in facts.closures_of(fn) if c.path not in inside and c.calls(lambda t: t["callee"].startswith(LINE))]
+        spliced = getattr(fn, "inlined_paths", set())          # closures whose body is part of this view already (called by an inlined helper)
+        stray = [c.path for c in facts.closures_of(fn) if c.path not in inside and c.path not in spliced and c.calls(lambda t: t["callee"].startswith(LINE))]
         if via_closure and not eff and not stray:
             ctx.ok(rule, fn.path, fn.span, "LocalSpanStack::%s is inert unless a scope is open (span_lines.last_mut() = Some)" % name,
                    "effects run inside a closure handed to an Option combinator on current_span_line()", extra="inert")
